@@ -2,6 +2,7 @@ package hcv
 
 import (
 	"fmt"
+	"go/token"
 	"net/http"
 	"sort"
 	"strings"
@@ -290,7 +291,45 @@ func ruleCodecPair(c *Ctx, rule string) {
 				c.Fail(rule, "dump-with-body", "the stored entry is serialised with its body (DumpResponse(_, true))", where+": body argument is not the constant true; entries would be stored header-only")
 			}
 			// the dumped response is the entry's own response
-			if _, isData := c.An.isEntryDataLoad(call.Args[0]); isData {
+			_, isData := c.An.isEntryDataLoad(call.Args[0])
+			headCopy := false
+			if al, ok := call.Args[0].(*ssa.Alloc); ok && !isData {
+				// a local copy of the entry's response head (`head := *r.Data`), adjusted before it is written
+				for _, st := range c.P.cellStores(al) {
+					if ld, ok := st.Val.(*ssa.UnOp); ok && ld.Op == token.MUL {
+						if _, ok := c.An.isEntryDataLoad(ld.X); ok {
+							isData, headCopy = true, true
+						}
+					}
+				}
+			}
+			if headCopy {
+				// the copy must not carry this hop's connection state into the store: Close is cleared
+				al := call.Args[0].(*ssa.Alloc)
+				closeCleared := false
+				if refs := al.Referrers(); refs != nil {
+					for _, r := range *refs {
+						if fa, ok := r.(*ssa.FieldAddr); ok && fieldName(fa.X.Type(), fa.Field) == "Close" && fa.Referrers() != nil {
+							for _, u := range *fa.Referrers() {
+								if st, ok := u.(*ssa.Store); ok {
+									if b, isC := constBool(st.Val); isC && !b {
+										closeCleared = true
+									}
+								}
+							}
+						}
+					}
+				}
+				if closeCleared {
+					c.Pass(rule, "dump-without-connection-state", "the stored message does not carry this hop's Close flag (it would come back as `Connection: close`)", where)
+				} else {
+					c.Fail(rule, "dump-without-connection-state", "the stored message does not carry this hop's Close flag (it would come back as `Connection: close`)", where+": the serialised copy keeps Close; a stored HTTP/1.0 response is replayed with a `Connection: close` field the origin never sent")
+				}
+			}
+			if isData && !headCopy {
+				c.Fail(rule, "dump-without-connection-state", "the stored message does not carry this hop's Close flag (it would come back as `Connection: close`)", where+": the live response object is serialised as it is; when its Close flag is set (HTTP/1.0, close-delimited body) `Connection: close` is written into the entry and replayed, and the trailers of a non-chunked (HTTP/2) response are dropped")
+			}
+			if isData {
 				c.Pass(rule, "dump-entry-data", "the serialised response is the entry's response", where)
 			} else {
 				c.Fail(rule, "dump-entry-data", "the serialised response is the entry's response", where+": DumpResponse is applied to something else")
